@@ -4,6 +4,7 @@ import RV.C08.LemChain
 import RV.C08.LemMods
 import RV.C08.LemAgg
 import RV.C08.LemAcc
+import RV.C08.LemRewrite
 /-  C08 — helper lemmas, split over LemSort (stable sort), LemOrder (key comparison is a strict weak
     order), LemChain (chain of sorts, SPARQL refinement), LemMods (slice/distinct/reduced/project),
-    LemAgg (grouping), LemAcc (accumulators). -/
+    LemAgg (grouping), LemAcc (accumulators), LemRewrite (translateAggregates). -/
